@@ -158,9 +158,11 @@ func directedEDF() []directed {
 		{"any-chain-100k", func() []byte { return append(bytes.Repeat([]byte{132}, 100000), 145, 1) }},
 		{"any-chain-2m-maxstack64m", func() []byte { return append(bytes.Repeat([]byte{132}, 2<<20), 145, 1) }},
 		// zero-size elements: the loop count comes from the descriptor, no input is consumed
-		{"array-of-zero-size-2^32", lit(cat([]byte{130, 0, 11, 158}, be32(0xffffffff), []byte{158}, be32(0), []byte{151}, []byte{0}))},
+		// clearly above any CPU budget: 2^64 iterations (nested), never returns
 		{"array-of-zero-size-nested", lit(cat([]byte{130, 0, 16, 158}, be32(0xffffffff), []byte{158}, be32(0xffffffff), []byte{158}, be32(0), []byte{151}, []byte{0}))},
-		{"array-of-empty-struct-2^32", lit(cat(append([]byte{130, 0, byte(5 + 3 + len("#main/NEmpty")), 158}, be32(0xffffffff)...), regName("#main/NEmpty"), []byte{0}))},
+		{"array-of-empty-struct-nested", lit(cat(append(append([]byte{130, 0, byte(5 + 5 + 3 + len("#main/NEmpty")), 158}, be32(0xffffffff)...), append([]byte{158}, be32(0xffffffff)...)...), regName("#main/NEmpty"), []byte{0}))},
+		// clearly below: 2^20 iterations, 24 MiB of garbage, must return without any violation
+		{"array-of-zero-size-2^20", lit(cat([]byte{130, 0, 11, 158}, be32(1<<20), []byte{158}, be32(0), []byte{151}, []byte{0}))},
 	}
 }
 
@@ -321,7 +323,7 @@ func checkDecode(caseIdx int, cs caseSpec, idx int, data []byte, o optset, a *ag
 	violated := false
 	mk := func(sig, what string, detail any) {
 		violated = true
-		violation(vrec{Case: cs.ID, Idx: idx, Sig: sig, What: what, Hex: hexOf(data), Len: len(data), Detail: detail})
+		violation(vrec{Case: cs.ID, Idx: idx, Sig: sig, What: what, Hex: hexOf(data), Len: len(data), Detail: detail, Raw: data})
 	}
 	if r.escaped != nil {
 		mk("panic-escaped/edf.Decode", fmt.Sprintf("edf.Decode let a panic escape: %v", r.escaped), nil)
